@@ -381,7 +381,9 @@ PLANS = {
                 mc=[MC("MCVarint", "MCVarint.cfg", workers=4)],
                 gen=[G("varint_sweep", 1, 1, "TraceVarint", "TraceVarint_C14.cfg", heavy=False),
                      G("varint_windows", 4, 16, "TraceVarint", "TraceVarint_C14.cfg"),
-                     G("framing", 169, 200, "TraceCursor", "TraceCursor.cfg")],
+                     G("framing", 169, 200, "TraceCursor", "TraceCursor.cfg"),
+                     # the same lengths as the first entry of a fresh sorter (buffer growth, dump, merge)
+                     G("sorter_framing", 42, 84, "TraceSorter", "TraceSorter_C07.cfg", heavy=False)],
                 extra=[apalache_varint]),
     "C15": dict(level="model_checking", assumptions=TRUST + ["independent decoder: sequential walk, codec crates, LEB128 framing parser"],
                 mc=[MC("MCWriter", "MCWriter_sorted_a.cfg", workers=8), MC("MCWriter", "MCWriter_sorted_b.cfg", workers=8)],
@@ -396,6 +398,8 @@ PLANS = {
                 gen=[G("alloc", 240, 8000, "TraceAlloc", "TraceAlloc.cfg"),
                      G("alloc", 60, 1000, "TraceSorterB", "TraceSorterB.cfg", drift=True),
                      G("alloc_readers", 40, 1200, "TraceAlloc", "TraceAlloc.cfg"),
+                     # real-scale growth of the sorter buffer: first entries on framing boundaries / powers of two
+                     G("sorter_framing", 42, 84, "TraceSorter", "TraceSorter_C07.cfg", heavy=False),
                      # borrowed keys / values handed out by the read paths: freed memory is poisoned by the
                      # monitoring allocator, so a dangling reference yields bytes no contract accepts
                      G("history", 80, 2000, "TraceCursor", "TraceCursor.cfg"),
